@@ -169,6 +169,14 @@ func vfCPForgeries(t *testing.T, r *vfRand) (tried int, accepted []vfCPForged) {
 		if auth, em, acc, _, err := vfMiscLoad(sm, jar); err != nil || !auth || em != email || acc != idTok {
 			t.Fatalf("forgery phase: the genuine cookies do not load (%v %v %q)", err, auth, em)
 		}
+		// (0) genuine values presented UNCHANGED under another of the deployment's cookie names
+		tried += 2
+		if _, _, _, ref, err := vfMiscLoad(sm, map[string]string{mName: jar[mName], aName: jar[aName], rName: jar[aName]}); err == nil && ref != "" {
+			accepted = append(accepted, vfCPForged{"value of " + aName + " presented unchanged under the name " + rName, "none (nothing re-signed)", rName, "refresh token read: " + ref[:vfMinInt(len(ref), 40)]})
+		}
+		if _, _, acc, _, err := vfMiscLoad(sm, map[string]string{mName: jar[mName], aName: jar[rName]}); err == nil && acc != "" {
+			accepted = append(accepted, vfCPForged{"value of " + rName + " presented unchanged under the name " + aName, "none (nothing re-signed)", aName, "ID token read: " + acc[:vfMinInt(len(acc), 40)]})
+		}
 		weakKeys := map[string][]byte{"empty": {}, "32 zero bytes": make([]byte, 32), "64 zero bytes": make([]byte, 64),
 			"zero bytes, as many as the key has": make([]byte, len(key)), "the cookie name": []byte(mName), "32 bytes 0xff": bytes.Repeat([]byte{0xff}, 32),
 			"the word secret": []byte("secret")}
